@@ -67,6 +67,10 @@ def run_shard(prop, tier, seed, shard, nshards, only_case=None):
         rec.case = None
         if hasattr(mod, "finish"):
             mod.finish(rec, tier, state)
+        from . import contracts as _c
+
+        for key, phase, tb in _c.ERRORS:
+            rec.inconc(f"monitor callback raised ({key} {phase}): {tb}")
     finally:
         fpobs.stop()
         lineobs.stop()
